@@ -3,6 +3,7 @@ package hist
 import (
 	"fmt"
 	"math"
+	"strings"
 
 	art "github.com/Clement-Jean/go-art"
 )
@@ -97,6 +98,18 @@ func Registry(prop, tier string) []UniverseDef {
 	}
 	if prop == "C01" {
 		add(func() *Universe { return NewAlphaUniverse(NulSpec(), "string") }, "alpha[string]/NUL")
+	}
+	if prop == "C14" && tier != "thorough" {
+		// quick tier: the stop-position x re-iteration x nesting suite is quadratic in the tree size;
+		// the big fan-out windows and the byte sweeps stay in the thorough tier for this property
+		var keep []UniverseDef
+		for _, d := range out {
+			if strings.Contains(d.Name, "BYTESWEEP") || strings.Contains(d.Name, "@46") || strings.Contains(d.Name, "@39") || strings.Contains(d.Name, "FULL256") {
+				continue
+			}
+			keep = append(keep, d)
+		}
+		out = keep
 	}
 	return out
 }
